@@ -1,5 +1,5 @@
 import ScVerif.Base.Line
-import ScVerif.C02.Facts
+import ScVerif.C02.Lin
 /-!
 Driver handler for C02.  Messages are pairs of integers `a.b` (`durationpb.Duration{seconds, nanos}` on the
 Go side, the empty message is `0.0`), so that update masks can select one field and leave the other.
@@ -18,7 +18,9 @@ Request:  `run <fixed:0|1> <clock> <cands> <init> <progs> <sched>`
          to the old b + 1; writeTime `-` or a number
 * sched  `-` or comma separated thread ids; one entry = one atomic step of that thread
 
-Answer: `T0=[r,r,...]|T1=[...]|store=id:a.b@t,...|log=<n>|pc=<per thread i/c/m/d>|rng=<n>` with
+Answer: `T0=[r,r,...]|T1=[...]|store=id:a.b@t,...|log=<n>|pc=<per thread i/c/m/d>|rng=<n>|lin=<t.n,t.n,...>` with
+`lin` the linearization sequence of the theorem `C02_linearizable` (call `n` of thread `t`; refused calls of one
+index in the order they finished),
 r = `ok:<a.b>` | `ok:<a.b>#<generated id>` | `ok:nil` | `err:<Code>`, `@t` the stored change time.
 -/
 namespace ScVerif.C02
@@ -160,7 +162,8 @@ def handle (toks : List String) : String :=
       let ths := (List.range progs.length).map (fun t =>
         s!"T{t}=[" ++ ",".intercalate ((c.threads t).done.map (fun r => showRes r.op r.res)) ++ "]")
       "|".intercalate ths ++ s!"|store={showStore c}|log={c.log.length}|pc=" ++
-        "".intercalate ((List.range progs.length).map (fun t => showPc (c.threads t).pc)) ++ s!"|rng={c.rng}"
+        "".intercalate ((List.range progs.length).map (fun t => showPc (c.threads t).pc)) ++ s!"|rng={c.rng}|lin=" ++
+        ",".intercalate ((linSeq s₀ c.log c.refusedAt).map (fun ev => s!"{ev.tid}.{ev.idx}"))
     | _, _, _, _, _, _ => "!bad-op"
   | _ => "!bad-op"
 
